@@ -313,6 +313,7 @@ def run(argv):
     exprs = ["2**3**2", "-2.0**2", "Tgas**2**0.5", "3.0*-2.0**2", "n(idx_H2)*2.0", "n(idx_E)+1.0", "n(idx_H)*n(idx_Hp)",   # finding witnesses first
              "3.92d-13*invTe**0.6353d0", "exp(-32.7d0+13.5d0*lnTe)", "1.d0/(1.d0+Tgas)", "sqrt(Tgas)*T32**(-0.5)",
              "Tgas**(1d0/3d0)", "2d0/3d0*Te", "1d0/2d0", "(3d0/4d0)*Tgas**(5d-1)", "7d0/2d0+1d1/4d0",
+             "Tgas**(1/2)", "3/2*1.1d-10*Te", "Tgas**(-2/3)", "7/2/Tgas*1d-8", "2*3/4*Tgas", "Te*(5/2)+Tgas/2",
              "exp(-(Tgas/1.2d3)**2)", "3.0d-9*exp(-T32**1.5d0)", "-Tgas**2", "Te*(-invTe**2)", "-n(idx_H)**2", "-sqrt(Tgas)**3",
              "1.2d-8/(Tgas/3.d2)", "Te/(T32/invTe)", "2.0/(Tgas/300.0)/(Te/2.0)", "Tgas-(Te-T32)", "Tgas/(Te*T32)", "Tgas-(Te+T32)"]
     for f in [REPO / "tests/data/primordial.krome", REPO / "naunet/examples/primordial/primordial.krome",
@@ -331,7 +332,7 @@ def run(argv):
     KROMEReaction.initialize()
     KROMEReaction.reacformat = "idx,r,p,rate"
     for n, fx in enumerate(exprs):
-        bundled = 28 <= n < nb
+        bundled = 34 <= n < nb
         try:
             with silenced():
                 if "," in fx:
